@@ -166,10 +166,15 @@ class _Stopper(core.System):
 class SModel(core.Model):
     __slots__ = ['params', 'rep', 'stop']
 
-    def __init__(self, stop=0, **params):
-        super().__init__()
+    def __init__(self, stop=0, seed=None, **params):
+        super().__init__(seed=seed)
+        for k in params:                 # like a model with an explicit signature: unknown keywords are an error
+            if k not in ('lr', 'size', 'mode_name'):
+                raise TypeError(f"SModel.__init__() got an unexpected keyword argument '{k}'")
         self.stop = stop
         self.params = dict(params, stop=stop)
+        if seed is not None:
+            self.params['seed'] = seed
         k = pkey(self.params)
         self.rep = COUNTS.get(k, 0)
         COUNTS[k] = self.rep + 1
@@ -179,4 +184,7 @@ class SModel(core.Model):
 def table_score(model):
     if EXPECT_T[0] is not None and model.systems.timestep != EXPECT_T[0]:
         raise AssertionError(f'model handed to the score function is at timestep {model.systems.timestep}, expected {EXPECT_T[0]}')
-    return TABLE[pkey(model.params)][model.rep]
+    noise = 0
+    if 'seed' in model.params:      # the score also depends on the model's own seeded generator (dyadic, so sums stay exact)
+        noise = int(model.random.random() * 64) / 8
+    return TABLE[pkey(model.params)][model.rep] + noise
